@@ -43,7 +43,7 @@ def _mk(keykind, valkind):
         rec_classes={'FaSeries': ['Series'], 'FaValFrame': ['Frame']},
         result='FaResult',
         calls=calls,
-        **(dict(concrete_inputs='specs.t2_frameassign:concrete_inputs_series', witness_on_unknown=True, requires_concrete=[],
+        **(dict(concrete_inputs='specs.t2_frameassign:concrete_inputs_series', witness_on_unknown=True, witness_always=True, requires_concrete=[],
                 ensures_concrete=['ref_frame_assign_series(self, value, fill_value, result)']) if (valkind == 'series' and tuple_key) else {}),
         ensures=[
             # what is written is the value aligned to the very key it is written at (rows as given, columns ascending)
